@@ -156,7 +156,7 @@ theorem computeL_internal {gp : GPType} {n : Nat} {rank : RankV} {lm : Option Na
 
 /-! ### inversion of `resolveDensityLike` -/
 
-theorem resolveDensityLike_ok {c : Config} {gp : GPType} {rows cols : Nat} {cls : PredClass}
+theorem resolveDensityLike_ok {c : Config} {gp : GPType} {rows cols : Nat} {cls : PredFamily}
     (h : resolveDensityLike c = .ok gp rows cols cls) :
     ∃ r lm, prepare c = .ok r ∧ 2 ≤ c.n ∧ landmarksStep c.landmarks r.gp c.n r.nl = .ok lm ∧
       computeL r.gp c.n r.rank lm c.kept = .inr (rows, cols) ∧ cols ≠ 0 ∧
